@@ -156,15 +156,16 @@ Fixpoint nest (d : nat) : bytes :=   (* body of a SchedulerMessage wrapping d-1 
   end.
 Definition no_codec_dec (k : kind) : dec (msg unit) :=
   deserialize_remoting unit false (fun _ => MErr MENoCodec) (fun _ => None) (fun _ _ => MErr MEBadRef) k.
+Definition decodes_fully {A} (r : mres (A * bytes)) : bool := match r with MOk (_, []) => true | _ => false end.
+Lemma nest_check :
+  (N.of_nat (length (nest 600)) =? 16803) && decodes_fully (drun (no_codec_dec K_Scheduler) (nest 600)) &&
+  (N.of_nat (length (nest 600)) + 2 * K_map <? dcost (no_codec_dec K_Scheduler) (nest 600)) = true.
+Proof. vm_compute. reflexivity. Qed.
 Lemma nest_alloc_witness :
   N.of_nat (length (nest 600)) = 16803 /\
-  (exists m, drun (no_codec_dec K_Scheduler) (nest 600) = MOk (m, [])) /\
+  decodes_fully (drun (no_codec_dec K_Scheduler) (nest 600)) = true /\
   N.of_nat (length (nest 600)) + 2 * K_map < dcost (no_codec_dec K_Scheduler) (nest 600).
 Proof.
-  assert (H : (N.of_nat (length (nest 600)), match drun (no_codec_dec K_Scheduler) (nest 600) with MOk (_, []) => true | _ => false end,
-               N.of_nat (length (nest 600)) + 2 * K_map <? dcost (no_codec_dec K_Scheduler) (nest 600)) = (16803, true, true))
-    by (vm_compute; reflexivity).
-  injection H as H1 H2 H3. split; [exact H1|]. split.
-  - destruct (drun (no_codec_dec K_Scheduler) (nest 600)) as [[m [|x t]]|]; try discriminate. exists m. reflexivity.
-  - apply N.ltb_lt. exact H3.
+  pose proof nest_check as H. apply andb_true_iff in H as [H H3]. apply andb_true_iff in H as [H1 H2].
+  split; [apply N.eqb_eq; exact H1|]. split; [exact H2|apply N.ltb_lt; exact H3].
 Qed.
